@@ -12,10 +12,13 @@ open Nervus.GraphSpec (TxOp Op)
 /-- the two C05 fixes are present in the source (regenerated table entries) -/
 theorem csr_guard_present : Cfg.current.csrGuard = true := by decide
 theorem compact_own_tombstones_last : Cfg.current.compactOwnLast = true := by decide
+/-- the whole-map fix is present: `extend_*_properties_from_store` keep the newest store entry of a key -/
+theorem whole_map_keeps_newest : Generated.extendKeepsNewest = true := by decide
 
 /-- **C05 at full strength**: inserting a compaction anywhere in a history changes no later read.
     NOT provable on this tree: compaction clears the runs and with them every tombstone and every
-    property removal (see the counterexamples). -/
+    property removal (see the counterexamples; the fourth mechanism, whole-map reads returning the oldest
+    sunk value, is fixed). -/
 def C05_full : Prop :=
   ∀ (h₁ h₂ : List Op) (s s' : Engine),
     Storage.run Cfg.current (h₁ ++ [.compact] ++ h₂) = .ok s → Storage.run Cfg.current (h₁ ++ h₂) = .ok s' →
@@ -59,35 +62,33 @@ theorem C05_partial (s : Engine) (hs : compactSafe s = true) :
   · funext n; unfold Engine.resolveExternal; rw [hid.1]
   · funext x; unfold Engine.lookupInternal; rw [hid.1]
 
-/-! `freshNodeKeys s` (Proofs/EngineCompactMap): no node property key held by a run is already in the
-    store (no key is sunk twice). -/
+/-- **whole-map reads = single-key reads, in EVERY engine state** (any runs, segments, store):
+    `node_properties(n)` / `edge_properties(e)` hold for every key exactly what `node_property(n, k)` /
+    `edge_property(e, k)` answer.  (Pinned tree: false for a key with two store entries — the finding
+    `C05-whole-map-read-returns-oldest-sunk-value`, fixed.) -/
+theorem whole_map_eq_single_key (s : Engine) :
+    (∀ n k, (s.nodeProps n).lookup k = s.nodeProp n k) ∧ (∀ e k, (s.edgeProps e).lookup k = s.edgeProp e k) :=
+  ⟨nodeProps_lookup s, edgeProps_lookup s⟩
 
-/-- **C05 (proved part, whole-map read)**: from every `compactSafe` state in which no node property
-    key of the runs is already in the store, `node_properties` (the whole map) answers the same value
-    for every key before and after `compact` — the complement of the finding
-    `C05-whole-map-read-returns-oldest-sunk-value`.  (Relationship maps: same mechanism, not proved.) -/
-theorem C05_partial_whole_map (s : Engine) (hs : compactSafe s = true) (hf : freshNodeKeys s = true) (n k : Nat) :
-    ((s.compact Cfg.current).nodeProps n).lookup k = (s.nodeProps n).lookup k := by
-  simp only [compactSafe, Bool.and_eq_true, List.all_eq_true, List.isEmpty_iff, Bool.or_eq_true,
-    bne_iff_ne, ne_eq] at hs
-  simp only [freshNodeKeys, List.all_eq_true, Option.isNone_iff_eq_none] at hf
-  obtain ⟨hruns, hroot⟩ := hs
-  exact compact_nodeProps _ s (fun r hr => (hruns r hr).1.2)
-    (by intro h0; rcases hroot with h | h
-        · exact absurd h0 h
-        · exact h)
-    hf n k
+/-- **C05 (proved part, whole-map reads)**: from every `compactSafe` state `node_properties` and
+    `edge_properties` (the whole maps) answer the same value for every key before and after `compact`. -/
+theorem C05_partial_whole_map (s : Engine) (hs : compactSafe s = true) :
+    (∀ n k, ((s.compact Cfg.current).nodeProps n).lookup k = (s.nodeProps n).lookup k) ∧
+    (∀ e k, ((s.compact Cfg.current).edgeProps e).lookup k = (s.edgeProps e).lookup k) := by
+  obtain ⟨_, hnd, hed, hroot⟩ := compactSafe_unpack s hs
+  exact ⟨compact_nodeProps _ s hnd hroot, compact_edgeProps _ s hed hroot⟩
 
 /-! ### history level: compactions at arbitrary positions
 
     `compactHistSafe c s h` (Proofs/CompactHist, decidable — it runs the model): `h` consists of
     transactions (committed or dropped) and compactions; every compaction starts from a state that is
-    `compactSafe` with `freshNodeKeys`; after every transaction no published property removal sits over
-    a value in the store (`removalsClear`).  `dropCompactions h` = `h` without its `.compact` entries. -/
+    `compactSafe`; after every transaction no published property removal sits over a value in the store
+    (`removalsClear`).  `dropCompactions h` = `h` without its `.compact` entries. -/
 
 /-- every read interface answers alike: node enumeration (both kinds), tombstone test, neighbours in
     both directions with any type filter (as multisets; a panic on one side is a panic on the other),
-    single-key node / relationship properties, `node_properties` key by key, labels (ids and names),
+    single-key node / relationship properties, `node_properties` / `edge_properties` key by key, labels
+    (ids and names),
     external ids, external-id lookup, interned names, vector search -/
 def SameReads (s u : Engine) : Prop :=
   s.nodes = u.nodes ∧ s.nodesSnap = u.nodesSnap ∧ s.isTombstoned = u.isTombstoned ∧
@@ -95,6 +96,7 @@ def SameReads (s u : Engine) : Prop :=
   (∀ n rel, PermOpt (s.incoming Cfg.current n rel) (u.incoming Cfg.current n rel)) ∧
   (∀ n k, s.nodeProp n k = u.nodeProp n k) ∧ (∀ e k, s.edgeProp e k = u.edgeProp e k) ∧
   (∀ n k, (s.nodeProps n).lookup k = (u.nodeProps n).lookup k) ∧
+  (∀ e k, (s.edgeProps e).lookup k = (u.edgeProps e).lookup k) ∧
   s.nodeLabels = u.nodeLabels ∧ s.nodeLabelNames = u.nodeLabelNames ∧ s.resolveExternal = u.resolveExternal ∧
   s.lookupInternal = u.lookupInternal ∧ s.interner = u.interner ∧ s.vecNodes = u.vecNodes
 
@@ -189,17 +191,21 @@ theorem C05_counterexample_property_removal :
     StorageTriggers.c05TriggerList Cfg.current (hPropRemoval true) = ["C05-compact-drops-property-removal"] :=
   ⟨⟨_, rfl, by decide⟩, ⟨_, rfl, by decide, by decide⟩, by decide⟩
 
-/-- a value overwritten across two compactions: the single-key read returns the new value, the
-    whole-map read the OLD one (the scan keeps the last = oldest duplicate of the key) -/
+/-! ### the three defects of the pinned tree that are fixed (witnesses stay in the corpus) -/
+
+/-- a value overwritten across two compactions: the single-key read returns the new value; the pinned
+    insertion loop of the whole-map read (`props.insert`, `extendWith false`) returned the OLD one (the scan
+    kept the last = oldest duplicate of the key), the current one (`or_insert`) returns the new one; fixed
+    by c7ee0a6 -/
 def hOverwrite : List Op :=
   [ .tx [.node 10 (some A), .nprop 0 K 1] true, .compact, .tx [.nprop 0 K 2] true, .compact ]
 
 theorem C05_counterexample_whole_map_oldest :
-    (∃ s, Storage.run Cfg.current hOverwrite = .ok s ∧ s.nodeProp 0 K = some 2 ∧ s.nodeProps 0 = [(K, 1)]) ∧
-    StorageTriggers.c05TriggerList Cfg.current hOverwrite = ["C05-whole-map-read-returns-oldest-sunk-value"] :=
-  ⟨⟨_, rfl, by decide, by decide⟩, by decide⟩
+    (∃ s, Storage.run Cfg.current hOverwrite = .ok s ∧ s.nodeProp 0 K = some 2 ∧
+      Store.extendWith false (s.store.fetchNode 0 []) [] = [(K, 1)] ∧ s.nodeProps 0 = [(K, 2)]) ∧
+    StorageTriggers.c05TriggerList Cfg.current hOverwrite = [] :=
+  ⟨⟨_, rfl, by decide, by decide, by decide⟩, by decide⟩
 
-/-! ### the two defects of the pinned tree that are fixed (witnesses stay in the corpus) -/
 
 /-- pinned tree: an edge-free compaction yields a segment without reverse offsets and
     `incoming_neighbors(0)` panics (csr.rs:67); fixed by f429866 -/
